@@ -11,7 +11,7 @@ ParentVecs(n) == {p \in [1..n -> 0..(n - 1)] : p[1] = 0 /\ \A i \in 2..n : p[i] 
 RECURSIVE AscSeq(_)
 AscSeq(S) == IF S = {} THEN <<>> ELSE LET m == CHOOSE x \in S : \A y \in S : x <= y IN <<m>> \o AscSeq(S \ {m})
 KidsIn(p, i) == AscSeq({j \in DOMAIN p : p[j] = i})
-Caps == {"plain", "checker", "transformer", "both"}
+Caps == {"plain", "checker", "transformer", "both", "none"}
 \* plain shapes: inner nodes are plain non-terminals, leaves are terminals
 ShapeTree(p) == [i \in DOMAIN p |-> IF KidsIn(p, i) = <<>> THEN Nd("term", "", <<>>) ELSE Nd("nt", "plain", KidsIn(p, i))]
 \* labelled: a leaf is a terminal, an Empty node or a childless non-terminal of any capability
@@ -40,5 +40,6 @@ Export ==
                check |-> [log |-> CheckLog(tree, failAt), failed |-> CheckFails(tree, failAt),
                           schemas |-> [n \in 1..Len(tree) |-> FinalSchema(tree, failAt, n)]],
                transform |-> [log |-> tl[1], failed |-> tl[2], result |-> IF tl[2] THEN "" ELSE RenderT(tree, 1)],
-               eval |-> [log |-> el[1], failed |-> el[2]]]]]))
+               eval |-> IF Evaluable(tree) THEN [log |-> el[1], failed |-> el[2], skip |-> FALSE]
+                        ELSE [log |-> <<>>, failed |-> FALSE, skip |-> TRUE]]]]))
 =============================================================================
